@@ -49,11 +49,12 @@ fn k_parse_char_int() {
     std::mem::forget(args);
 }
 
-/// parse_int on Int (identity) and on Char (decimal digit or error)
+/// parse_int on Int (identity)
 #[cfg_attr(kani, kani::proof)]
+#[cfg_attr(kani, kani::unwind(3))]
 #[cfg_attr(kani, kani::stub(alloc::fmt::format, fmt_stub))]
 #[cfg_attr(verif_replay, test)]
-fn k_parse_int_int_char() {
+fn k_parse_int_int() {
     lib_only!();
     let v: i64 = kani::any();
     let args = vec![qr_int(v)];
@@ -64,6 +65,15 @@ fn k_parse_int_int_char() {
     }
     std::mem::forget(r);
     std::mem::forget(args);
+}
+
+/// parse_int on Char: the decimal digit value or an error -- never a wrong value
+#[cfg_attr(kani, kani::proof)]
+#[cfg_attr(kani, kani::unwind(3))]
+#[cfg_attr(kani, kani::stub(alloc::fmt::format, fmt_stub))]
+#[cfg_attr(verif_replay, test)]
+fn k_parse_int_char() {
+    lib_only!();
     let c: char = kani::any();
     let args = vec![qr_val(PathAwareValue::Char((Path::root(), c)))];
     let r = parse_int(&args);
@@ -80,11 +90,12 @@ fn k_parse_int_int_char() {
     std::mem::forget(args);
 }
 
-/// parse_boolean on Bool (identity); converters skip (None) unresolved values and unsupported types
+/// parse_boolean on Bool (identity)
 #[cfg_attr(kani, kani::proof)]
+#[cfg_attr(kani, kani::unwind(3))]
 #[cfg_attr(kani, kani::stub(alloc::fmt::format, fmt_stub))]
 #[cfg_attr(verif_replay, test)]
-fn k_parse_bool_and_skips() {
+fn k_parse_bool_bool() {
     lib_only!();
     let b: bool = kani::any();
     let args = vec![qr_val(PathAwareValue::Bool((Path::root(), b)))];
@@ -95,18 +106,30 @@ fn k_parse_bool_and_skips() {
     }
     std::mem::forget(r);
     std::mem::forget(args);
-    let args = vec![qr_unresolved(), qr_val(PathAwareValue::Null(Path::root()))];
-    let r1 = parse_bool(&args);
-    let r2 = parse_int(&args);
-    let r3 = parse_float(&args);
-    let r4 = parse_char(&args);
-    let r5 = parse_str(&args);
-    for r in [&r1, &r2, &r3, &r4, &r5] {
-        match r {
-            Ok(v) => kani::assert(v.len() == 2 && v[0].is_none() && v[1].is_none(), "unresolved values and unsupported types are skipped"),
-            Err(_) => kani::assert(false, "skipping is not an error"),
-        }
-    }
-    std::mem::forget((r1, r2, r3, r4, r5));
-    std::mem::forget(args);
 }
+
+/// converters skip (None) unresolved values and unsupported types; one harness per converter
+macro_rules! skip_harness {
+    ($name:ident, $f:ident) => {
+        #[cfg_attr(kani, kani::proof)]
+        #[cfg_attr(kani, kani::unwind(4))]
+        #[cfg_attr(kani, kani::stub(alloc::fmt::format, fmt_stub))]
+        #[cfg_attr(verif_replay, test)]
+        fn $name() {
+            lib_only!();
+            let args = vec![qr_unresolved(), qr_val(PathAwareValue::Null(Path::root()))];
+            let r = $f(&args);
+            match &r {
+                Ok(v) => kani::assert(v.len() == 2 && v[0].is_none() && v[1].is_none(), "unresolved values and unsupported types are skipped"),
+                Err(_) => kani::assert(false, "skipping is not an error"),
+            }
+            std::mem::forget(r);
+            std::mem::forget(args);
+        }
+    };
+}
+skip_harness!(k_skip_parse_bool, parse_bool);
+skip_harness!(k_skip_parse_int, parse_int);
+skip_harness!(k_skip_parse_float, parse_float);
+skip_harness!(k_skip_parse_char, parse_char);
+skip_harness!(k_skip_parse_str, parse_str);
